@@ -89,3 +89,244 @@ def check(ctx):
               "the dedicated pattern is selected by comparing with the escaped delimiters /\\* and \\*/",
               "format_block_comment no longer compares its arguments with the escaped C-style delimiters", where(f),
               nontrivial=False)
+    block_comment_templates(ctx, facts)
+
+
+# ------------------------------------------------------------------------------------------------------------------ R15.4
+def _named_root(body, op, depth=12):
+    """follow copies / borrows / tuple packing from an operand to the first user-named local"""
+    from ..dataflow import single_def
+    cur = op
+    while depth > 0 and cur and cur[0] in ("c", "m"):
+        depth -= 1
+        place = cur[1]
+        l = place[0]
+        if body.local_name(l) and not [e for e in place[1:] if isinstance(e, list) and e[0] == "f"]:
+            return l
+        d = single_def(body, l)
+        if not d or d[0] != "assign":
+            return l if body.local_name(l) else None
+        rv = d[3]
+        fld = [e for e in place[1:] if isinstance(e, list) and e[0] == "f"]
+        if rv[0] == "agg" and rv[1] == "tuple" and fld:
+            cur = rv[4][fld[0][1]]
+        elif rv[0] == "use":
+            cur = rv[1]
+        elif rv[0] in ("ref", "ptr", "cfd"):
+            cur = ["c", rv[-1]]
+        else:
+            return None
+    return None
+
+
+def _sym_value(body, op, depth=40):
+    """symbolic value of a string operand of format_block_comment:
+    ('s',) | ('e',) | ('atom', i) | ('class', i) | ('cat', [...]) | ('atoms_prefix',) | ('class_i',) | ('unknown', why)"""
+    from ..dataflow import single_def
+    if depth <= 0 or not op or op[0] not in ("c", "m"):
+        return ("unknown", "operand")
+    place = op[1]
+    l = place[0]
+    name = body.local_name(l)
+    flds = [e for e in place[1:] if isinstance(e, list) and e[0] == "f"]
+    if name == "s" and l == 1:
+        return ("s",)
+    if name == "e" and l == 2:
+        return ("e",)
+    d = single_def(body, l)
+    if d is None:
+        return ("unknown", "no single definition of %s" % (name or l))
+    if d[0] == "call":
+        c = d[3]
+        n = (c.path or "").split("::")[-1]
+        if n == "index" and len(c.args) == 2:
+            base = _named_root(body, c.args[0])
+            bname = body.local_name(base) if base is not None else None
+            it = operand_term(body, c.args[1])
+            if it[0] == "const" and isinstance(it[2], int) and bname in ("atoms", "class_safe"):
+                return ("atom" if bname == "atoms" else "class", it[2])
+            if bname == "class_safe":
+                return ("class_i",)
+            if bname == "atoms":
+                return ("atoms_index",)
+        if n in ("must_use", "format", "to_string", "clone", "deref", "borrow", "as_str", "as_ref") and c.args:
+            if n == "format":
+                # the Arguments value -> its template
+                for line, pieces, roots, names, ops in _templates(body):
+                    if line == c.line:
+                        return ("cat", [("lit", p[1]) if p[0] == "lit" else _sym_value(body, ops[p[1]], depth - 1) for p in pieces])
+                return ("unknown", "format without template")
+            return _sym_value(body, c.args[0], depth - 1)
+        if n in ("call", "call_mut", "call_once") and len(c.args) == 2:
+            clo = _named_root(body, c.args[0])
+            cname = body.local_name(clo) if clo is not None else None
+            at = operand_term(body, c.args[1])
+            inner = None
+            rp = None
+            from ..dataflow import raw_operand_place
+            rp = raw_operand_place(body, c.args[1])
+            dd = single_def(body, rp[0]) if rp else None
+            if dd and dd[0] == "assign" and dd[3][0] == "agg" and dd[3][1] == "tuple" and dd[3][4]:
+                inner = _sym_value(body, dd[3][4][0], depth - 1)
+            if cname == "class_safe_atom" and inner and inner[0] == "atom":
+                return ("class", inner[1])
+            return ("unknown", "closure %s" % cname)
+        if n == "join":
+            return ("joined",)
+        return ("unknown", "call %s" % n)
+    rv = d[3]
+    if rv[0] == "agg" and rv[1] == "tuple" and flds:
+        return _sym_value(body, rv[4][flds[0][1]], depth - 1)
+    if rv[0] == "use":
+        return _sym_value(body, rv[1], depth - 1)
+    if rv[0] in ("ref", "ptr", "cfd"):
+        return _sym_value(body, ["c", rv[-1]], depth - 1)
+    return ("unknown", rv[0])
+
+
+def _templates(body):
+    """fmt templates with the operand of every argument: [(line, pieces, roots, names, operands)]"""
+    from ..dataflow import single_def, raw_operand_place
+    from .common import fmt_templates
+    out = []
+    for c in body.calls():
+        if (c.path or "") != "std::fmt::Arguments::new" or len(c.args) < 2:
+            continue
+        t = operand_term(body, c.args[0])
+        if t[0] != "const" or not isinstance(t[2], str):
+            continue
+        try:
+            pieces = rxmod.decode_fmt_template(t[2])
+        except rxmod.Unsupported:
+            continue
+        rp = raw_operand_place(body, c.args[1])
+        d = single_def(body, rp[0]) if rp else None
+        ops = []
+        if d and d[0] == "assign" and d[3][0] == "agg" and d[3][1] == "array":
+            for o in d[3][4]:
+                r2 = raw_operand_place(body, o)
+                d2 = single_def(body, r2[0]) if r2 else None
+                ops.append(d2[3].args[0] if d2 and d2[0] == "call" and d2[3].args else None)
+        out.append((c.line, pieces, None, None, ops))
+    return out
+
+
+def _instantiate(sym, atoms):
+    """regex text of a symbolic template value for concrete one-letter atoms"""
+    k = sym[0]
+    if k == "s":
+        return START
+    if k == "e":
+        return "".join(atoms)
+    if k in ("atom", "class"):
+        return atoms[sym[1]]
+    if k == "lit":
+        return sym[1]
+    if k == "cat":
+        return "".join(_instantiate(x, atoms) for x in sym[1])
+    raise rxdfa.Unsupported("symbolic value %s" % (sym,))
+
+
+PARTITIONS = {1: [("x",)], 2: [("x", "x"), ("x", "y")],
+              3: [("x", "x", "x"), ("x", "x", "y"), ("x", "y", "x"), ("y", "x", "x"), ("x", "y", "z")]}
+
+
+def _decide(ctx, f, line, key, sym_or_text, n, what):
+    for atoms in PARTITIONS[n]:
+        try:
+            pat = sym_or_text(atoms) if callable(sym_or_text) else _instantiate(sym_or_text, atoms)
+            alpha = sorted(set(atoms) | {START, "\n"}) + [rxdfa.OTHER]
+            eq, wit = rxdfa.equivalent(rxdfa.regex_dfa(pat, alpha), rxdfa.delimited_spec(START, "".join(atoms)), alpha)
+        except rxdfa.Unsupported as e:
+            ctx.bad("R15.4", "%s|%s|unsupported" % (key, "".join(atoms)), "cannot analyse the %s for end delimiter shape %s: %s"
+                    % (what, "".join(atoms), e), where(f, line))
+            continue
+        shape = "".join(atoms)
+        if eq:
+            ctx.ok("R15.4", "%s|end=%s" % (key, shape), "for an end delimiter of the shape %r the %s `%s` denotes 'from the start "
+                   "delimiter to the first end delimiter'" % (shape, what, pat.replace(START, "<start>")), where(f, line))
+        else:
+            w = rxdfa.render([s for s in (wit or [])]).replace(START, "<start>")
+            ctx.bad("R15.4", "%s|end=%s" % (key, shape),
+                    "for an end delimiter of the shape %r (letters stand for arbitrary distinct characters, e.g. %s) the %s `%s` does not "
+                    "denote 'from the start delimiter to the first end delimiter': pattern and specification disagree on the text %s"
+                    % (shape, {"xxy": "`-->`", "xxx": "`---`", "xyx": "`*/*`", "yxx": "`/**`"}.get(shape, "`" + shape + "`"), what,
+                       pat.replace(START, "<start>"), w), where(f, line))
+
+
+def block_comment_templates(ctx, facts):
+    """R15.4 the *computed* block-comment pattern, decided schematically: format_block_comment assembles its result from constant
+    templates whose holes are the start delimiter, the end delimiter, its atoms a_i and their bracket-safe forms c_i.  The holes
+    are resolved by provenance (a_i = atoms[i], c_i = class_safe_atom(a_i), excluded = c0 c1, alternatives of the general branch:
+    `[^c_0]`, `a_0 .. a_(i-1) [^c_i]` joined by `|`), the templates are instantiated for every equality pattern of up to three
+    atoms over a symbolic alphabet, and each instance is compared (regex -> DFA, exact) with the specification automaton
+    'start, then up to the first occurrence of the end delimiter'.  Atoms are taken as single ordinary characters; escaping of
+    the delimiters themselves is not modelled."""
+    f = facts.body(FBC)
+    tps = _templates(f)
+    # ---- two-atom branch: templates that mention both a0/a1 (or c0/c1)
+    two = []
+    gen = {}
+    for line, pieces, _r, _n, ops in tps:
+        syms = [_sym_value(f, o) if o else ("unknown", "arg") for o in ops]
+        kinds = {s[0] for s in syms}
+        lits = "".join(p[1] for p in pieces if p[0] == "lit")
+        if "s" in kinds and "e" in kinds or ("s" in kinds and ("atom" in kinds)):
+            if "joined" in kinds:
+                gen["outer"] = (line, pieces, syms)
+            else:
+                two.append((line, pieces, syms))
+        elif kinds <= {"class", "class_i"} and lits == "[^]" and "class" in kinds:
+            gen["first"] = (line, pieces, syms)
+        elif "class_i" in kinds and lits == "[^]":
+            gen["step"] = (line, pieces, syms)
+    if len(two) != 2 or set(gen) != {"outer", "first", "step"}:
+        raise AnchorMissing("format_block_comment: expected two templates of the two-atom branch and the three templates of the "
+                            "general branch, found %d / %s" % (len(two), sorted(gen)))
+    for line, pieces, syms in two:
+        val = ("cat", [("lit", p[1]) if p[0] == "lit" else syms[p[1]] for p in pieces])
+        unk = [s for s in syms if s[0] == "unknown"]
+        if unk:
+            raise AnchorMissing("format_block_comment: cannot resolve a hole of the template at line %d: %s" % (line, unk))
+        # which equality pattern selects this template: control dependence on `a0 == a1`
+        blk = [c.bb for c in f.calls() if (c.path or "") == "std::fmt::Arguments::new" and c.line == line][0]
+        from .common import guards_on_all_paths
+        sel = None
+        for a, k, truth in guards_on_all_paths(f, blk):
+            if k and k[0] == "call" and (k[1].path or "").split("::")[-1] in ("eq", "ne"):
+                n0 = [_sym_value(f, o) for o in k[1].args]
+                if sorted(n0) == [("atom", 0), ("atom", 1)]:
+                    sel = truth if (k[1].path or "").endswith("eq") else not truth
+        parts = [p for p in PARTITIONS[2] if sel is None or (p[0] == p[1]) == sel]
+        for atoms in parts:
+            _decide_one = lambda at, v=val: _instantiate(v, at)
+            save = PARTITIONS[2]
+            PARTITIONS[2] = [atoms]
+            try:
+                _decide(ctx, f, line, "two-atom-template@%s" % ("equal" if atoms[0] == atoms[1] else "distinct"), val, 2,
+                        "template of the two-character branch")
+            finally:
+                PARTITIONS[2] = save
+    # ---- general branch
+    o_line, o_pieces, o_syms = gen["outer"]
+    f_line, f_pieces, f_syms = gen["first"]
+    s_line, s_pieces, s_syms = gen["step"]
+    ok_first = f_syms == [("class", 0)]
+    ok_step = [s[0] for s in s_syms] in (["joined", "class_i"], ["class_i", "joined"]) or \
+        sorted(s[0] for s in s_syms) == ["class_i", "joined"]
+    ctx.check(ok_first and ok_step, "R15.4", "general-branch|holes",
+              "alternative 0 is [^c_0]; alternative i is <joined atoms prefix>[^c_i]",
+              "the holes of the general branch's templates are not (c_0) and (prefix, c_i): %s / %s" % (f_syms, s_syms),
+              where(f, s_line))
+
+    def general(atoms):
+        alts = ["[^%s]" % atoms[0]]
+        for i in range(1, len(atoms)):
+            pre = "".join(atoms[:i])
+            t = "".join(p[1] if p[0] == "lit" else (pre if s_syms[p[1]][0] == "joined" else atoms[i]) for p in s_pieces)
+            alts.append(t)
+        joined = "|".join(alts)
+        return "".join(p[1] if p[0] == "lit" else (START if o_syms[p[1]][0] == "s" else "".join(atoms) if o_syms[p[1]][0] == "e"
+                                                    else joined) for p in o_pieces)
+    for n in (1, 3):
+        _decide(ctx, f, o_line, "general-template|%d-atoms" % n, general, n, "pattern assembled by the general branch")
